@@ -29,15 +29,16 @@ class Recorder:
     """wraps rebuild_h_atoms (as imported into resolve.py / sample.py) and, while it runs,
     pysmiles.smiles_helper.correct_aromatic_rings"""
 
-    def __init__(self):
+    def __init__(self, with_utils=False):
         self.calls = []
+        self.with_utils = with_utils      # also wrap the name compute_mass uses (helper stream only)
 
     def install(self):
         import pysmiles
         import cgsmiles.resolve as R
         import cgsmiles.sample as SA
         import cgsmiles.pysmiles_utils as PU
-        self.mods = (R, SA, PU)
+        self.mods = (R, SA, PU) if self.with_utils else (R, SA)
         self.orig = PU.rebuild_h_atoms
         self.saved = [(m, m.rebuild_h_atoms) for m in self.mods]
         helper = pysmiles.smiles_helper
@@ -386,7 +387,7 @@ def helper_extras(seed):
         add('read_fragment_smiles', term)
         # compute_mass of the fragment that was just read
         if res is not None and in_table(res) and modelable(res):
-            rec = Recorder().install()
+            rec = Recorder(with_utils=True).install()
             try:
                 m, err = call(PU.compute_mass, res)
             finally:
@@ -409,6 +410,71 @@ def in_table_or_star(G):
             return False
     return True
 
+
+
+# ------------------------------------------------------------------------------ second oracle (Python)
+def py_holds_c09(before, final):
+    """mirror of HydroCheck.holds_C09, used only when the Coq side cannot be built (common.run_prop)"""
+    from pysmiles.smiles_helper import valence
+
+    def is_h(d):
+        return d.get('element') == 'H'
+
+    def half(d):
+        return int(2 * d.get('order', 1))
+    for n, d in final.nodes(data=True):
+        if is_h(d):
+            continue
+        e, q = d.get('element', '*'), d.get('charge', 0)
+        if not isinstance(e, str) or e == '*' or e.capitalize() not in ELEMENTS or q not in CHARGES:
+            continue
+        try:
+            val = valence(d)
+        except ValueError:
+            continue
+        if not val:
+            continue
+        heavy = [m for m in final[n] if not is_h(final.nodes[m])]
+        hs = [m for m in final[n] if is_h(final.nodes[m])]
+        b2 = sum(half(final.edges[n, m]) for m in heavy)
+        if 2 * max(val + [0]) < b2:
+            continue
+        v = next((x for x in val if b2 <= 2 * x), None)
+        if v is None:
+            continue
+        if len(hs) != (2 * v - b2) // 2:
+            return 1
+        tot = b2 + sum(half(final.edges[n, m]) for m in hs)
+        if tot != (2 * v if b2 % 2 == 0 else 2 * v - 1):
+            return 2
+    for n, d in final.nodes(data=True):
+        if not is_h(d):
+            continue
+        nb = list(final[n])
+        if len(nb) != 1 or half(final.edges[n, nb[0]]) != 2:
+            return 3
+        if 'mapping' in d:
+            continue
+        a = final.nodes[nb[0]]
+        for k in ('fragid', 'fragname', 'weight'):
+            if k in d and k in a:
+                if d[k] != a[k]:
+                    return 4
+            elif k in d and d[k] is None and k not in a:
+                continue
+            elif (k in d) != (k in a):
+                return 4
+    for n, d in before.nodes(data=True):
+        if is_h(d) and 'mapping' in d:
+            same = [x for _, x in final.nodes(data=True) if is_h(x) and x.get('mapping') == d['mapping']
+                    and x.get('fragid') == d.get('fragid')]
+            if not same:
+                return 5
+            x = same[0]
+            for k in ('fragid', 'fragname', 'weight'):
+                if (k in d) != (k in x) or (k in d and d[k] != x[k]):
+                    return 6
+    return 0
 
 
 # ------------------------------------------------------------------------------ the property object
@@ -482,10 +548,14 @@ class C09(common.Prop):
                'after': lit.obs_graph(call['after']) if 'after' in call else None,
                'exc': call.get('exc'), 'later_exc': exc,
                'final': lit.obs_graph(final) if final is not None else None,
-               'summary': {'before': summarise(before), 'final': summarise(final)}}
+               'summary': {'before': summarise(before), 'final': summarise(final)},
+               'py_code': py_holds_c09(before, final) if final is not None else 0}
         if out['car'] == '?':
             return {'skip': 'correct_aromatic_rings was not called by rebuild_h_atoms'}
         return out
+
+    def python_oracle(self, case, impl):
+        return impl.get('py_code', 0)
 
     def nontrivial(self, case, impl):
         if 'helpers' in impl:
